@@ -1781,7 +1781,7 @@ func TestVerifResume(t *testing.T) {
 			}
 		}
 	}
-	n := verifN(1200, 40000)
+	n := verifN(6000, 60000)
 	salt := 0
 	if prop == "C10" {
 		salt = 500000
